@@ -49,6 +49,25 @@ CHECKS.update({
         ref='DESIGN.md 2/C19'),
 })
 
+CHECKS.update({
+    'C09': dict(
+        technique='static analysis: whole-package ownership (who-may-write) lint on .index and the circuit containers, must-follow pairing of back-reference stores, ordering rules in constructors/removers',
+        text='Decides the representation-ownership and pairing clauses that every edit history relies on: only constructors/removers/IndexList touch indices and containers (all 12 modules), swap-with-last rewrites the moved index, '
+             'each reader/driver store is followed by its back-reference store, Line.remove clears both slots and squeezes forks, stats totals name their containers.',
+        note='Not decided: the for-all-histories invariant itself (interaction of many edits). Receiver typing is by naming convention (no type checker available).',
+        ref='DESIGN.md 2/C09'),
+    'C10': dict(
+        technique='static analysis: writer/reader table agreement (pickle), sibling-arm comparison (copy), ordering lint (fork elimination), guard evaluation of substitute over all library implementation graphs read from the source (node_map key coverage), provenance of (node, pin) pairs',
+        text='Decides pickle/copy/elimination structure and, for every one of the 263 library implementation graphs and every connected-pin pattern, that no node_map read in substitute can miss its key (resolving succeeds); plus pin/node pairing and name/order preservation.',
+        note='Not decided: functional equivalence of the re-wired circuit for arbitrary implementation shapes; composition of transformations.',
+        ref='DESIGN.md 2/C10'),
+    'C17': dict(
+        technique='static analysis: None-discipline dataflow lint on pin-list iterations, Kahn-shape structural rules, forward/backward mirror comparison by AST renaming, predicate agreement across sites, regex AST analysis',
+        text='Decides the visible preconditions of Kahn traversal for all graphs at once: connected-pin counting, None guards, seed/enqueue/yield-once shape, mirror image of the reverse order, one state-element predicate, level formula, fan-in marking, numeric bus-index sorting.',
+        note='Not decided: completeness/ordering for every graph (Kahn correctness itself), prefix collisions.',
+        ref='DESIGN.md 2/C17'),
+})
+
 NOT_YET = {
 }
 
